@@ -19,7 +19,7 @@ FUNCTIONS = ["Quantity.CheckValue/_RaiseValueError/ConvertScalarValue", "Array.V
              "UnitDatabase.CheckValueForCategory", "Scalar._GetDefaultValue"]
 LIMS = [("none", None, None)] + [("min", e, None) for e in (False, True)] + [("max", None, e) for e in (False, True)] + \
        [("both", a, b) for a in (False, True) for b in (False, True)]
-UNITS = [("length", "m", "m"), ("length", "m", "ft"), ("length", "in", "m"), ("length", "in", "cm"), ("temperature", "degC", "K"),
+UNITS = [("length", "m", "negm"), ("length", "m", "m"), ("length", "m", "ft"), ("length", "in", "m"), ("length", "in", "cm"), ("temperature", "degC", "K"),
          ("temperature", "K", "degF"), ("volume flow rate", "m3/d", "1000ft3/d"), ("pressure", "psi", "bar")]
 CLASSES = ["Scalar", "FractionScalar", "FractionScalar.frac", "db.CheckValueForCategory", "Array.list", "Array.tuple", "Array.numpy", "Array.tuples", "FixedArray.list"]
 BOUNDS = {
@@ -59,6 +59,8 @@ def items(tier, seed):
                 hist.append({"k": "redefine", "lim": list(lim), "qt": "length", "du": "m", "u": u, "cls": cls, "n": 2, "dflt": "given", "fp": False})
         for leg in (["volume flow rate", ["1000ft3/d", "M(ft3)/d", "Mm3/d"]], ["force per velocity", ["Ns/m"]], ["molecular weight", ["lb/lbmole", "g/mol"]]):
             hist.append({"k": "legacy_valid_units", "lim": list(lim), "qt": leg[0], "du": leg[1][0], "u": leg[1][0], "leg": leg[1], "cls": "Scalar", "n": 1, "dflt": "auto" if not (lim[1] or lim[2]) else "given", "fp": False})
+        for cls in ("Scalar", "Array.list", "FractionScalar"):
+            hist.append({"k": "clear_refill", "lim": list(lim), "qt": "length", "du": "m", "u": "cm", "cls": cls, "n": 2, "dflt": "given", "fp": False})
         hist.append({"k": "from_category", "lim": list(lim), "qt": "length", "du": "m", "u": "m", "cls": "Scalar", "n": 1, "dflt": "given", "fp": False})
         for cls in ("Array.list", "Array.numpy", "FixedArray.list"):
             hist.append({"k": "copy_category", "lim": list(lim), "qt": "length", "du": "m", "u": "cm", "cls": cls, "n": 2, "dflt": "given", "fp": False})
@@ -88,7 +90,10 @@ def inputs(cfg):
 
 def _sdb():
     if not _SDB:
-        _SDB.append(fresh_posc_db())
+        db = fresh_posc_db()
+        # a user-registered unit whose conversion to the base unit is DECREASING (like degAPI against specific gravity)
+        db.AddUnit("length", "metres below datum", "negm", lambda x: -x, lambda x: -x)
+        _SDB.append(db)
     return _SDB[0]
 
 
@@ -144,6 +149,21 @@ def run_history(cfg, V):
     xs = [V["x%d" % i] for i in range(cfg["n"])]
     k = cfg["k"]
     with pushed(db):
+        if k == "clear_refill":
+            # the SAME database object is emptied and configured again: objects and quantities of the first configuration exist, the category had no limits then
+            from barril.units import UnitDatabase
+
+            db.AddCategory("c12x", "length")  # first configuration: no limits
+            for un in ("m", "cm", "km"):
+                _mk_obj("Scalar", [1.0], un, "c12x"), _mk_obj("Array.list", [1.0, 2.0], un, "c12x"), _mk_obj("FractionScalar", [1.0], un, "c12x")
+            db.Clear()
+            UnitDatabase.FillUnitDatabaseWithPosc(db)
+            try:
+                db.AddCategory("c12x", "length", **kw)  # second configuration: a plain registration, with limits
+            except (ValueError, AssertionError, RuntimeError):
+                return {"skip": True}
+            o1, o2 = _mk_obj(cfg["cls"], xs, cfg["u"], "c12x"), _mk_obj(cfg["cls"], xs, "m", "c12x")
+            return {"valid_unit_only": o1.IsValid(), "valid_explicit": o2.IsValid(), "cat": "length", "second_unit": "m"}
         if k == "legacy_valid_units":
             # valid units given in legacy spellings and no default unit: the first valid unit becomes the default
             try:
@@ -212,6 +232,12 @@ def run(cfg, V):
                "qt_units": sdb.GetUnits(cfg["qt"]), "emin": info.is_min_exclusive, "emax": info.is_max_exclusive}
         s0 = Scalar(cat)
         reg["default_scalar"] = (s0.GetValue(), s0.GetUnit(), s0.IsValid())
+        if cfg["cls"] in ("Scalar", "FractionScalar") and cfg["u"] != cfg["du"]:
+            from barril.units import ObtainQuantity
+
+            qu = ObtainQuantity(cfg["u"], cat)
+            # the category default built in ANOTHER unit of the quantity type (category + unit, quantity alone), Scalar and FractionScalar
+            reg["default_other_unit"] = [Scalar(cat, unit=cfg["u"]).IsValid(), Scalar(qu).IsValid(), FractionScalar(cat, unit=cfg["u"]).IsValid(), FractionScalar(qu).IsValid()]
         xs = [V["x%d" % i] for i in range(cfg["n"])]
         cls, u = cfg["cls"], cfg["u"]
         if cls == "Scalar":
@@ -308,12 +334,15 @@ def props(cfg, T, obs):
          ("registered default unit belongs to the quantity type", obs["default_unit"] in obs["qt_units"]),
          ("Scalar(category) is the default value/unit and is valid", z3.And(_t(obs["default_scalar"][0], fp) == dv if not fp else z3.fpEQ(_t(obs["default_scalar"][0], fp), dv),
                                                                     z3.BoolVal(obs["default_scalar"][1] == obs["default_unit"] and obs["default_scalar"][2] is True)))]
+    if "default_other_unit" in obs:
+        P.append(("the category default built in another unit of the quantity type (category + unit, or the quantity alone; Scalar and FractionScalar) is valid too",
+                  all(v is True for v in obs["default_other_unit"])))
     if kind == "both" and not fp:
         P.append(("registered limits are ordered", lo <= hi))
     # ---- validation verdicts
     from .common import get_db
 
-    db = get_db("default")
+    db = _sdb()
     n = cfg["n"]
     xs = [T["x%d" % i] for i in range(n)]
     if cfg["cls"] == "FractionScalar.frac":
@@ -375,6 +404,11 @@ def props_history(cfg, T, obs, C):
         xs = xs[:1]
     conv = [oracle_convert(db, cfg["qt"], cfg["u"], "m", x) for x in xs]
     k = cfg["k"]
+    if k == "clear_refill":
+        want = z3.And(*[within(v) for v in conv])
+        want_m = z3.And(*[within(x) for x in xs])
+        return [("after Clear() and a new configuration of the same database object, objects validate against the NEW registration of the category (no quantity of the old configuration survives)",
+                 z3.And(z3.BoolVal(bool(obs["valid_unit_only"])) == want, z3.BoolVal(bool(obs["valid_explicit"])) == want_m))]
     if k == "redefine":
         want = z3.And(*[within(v) for v in conv])
         return [("objects built from the unit alone validate against the REDEFINED category (no stale limits from an earlier use)", z3.BoolVal(bool(obs["valid_unit_only"])) == want),
